@@ -10,6 +10,7 @@ delivered by calling the real EventResource.render_put.
 from __future__ import annotations
 
 import asyncio
+import os
 
 from aiocoap import Message
 from aiocoap.error import NetworkError
@@ -18,6 +19,12 @@ from aiocoap.numbers.codes import Code
 from refimpl.coap_accessory import CoapAccessory
 
 CUR = {"world": None}
+
+
+def errno_name(e: int) -> str:
+    import errno as _e
+
+    return _e.errorcode.get(e, str(e))
 _installed = False
 
 
@@ -61,8 +68,9 @@ class SimContext:
             if fut.done() and not outcome.get("arrive_anyway"):
                 w.ctx.probe("coap_request_never_arrived")
                 return
-            if outcome["kind"] == "neterr":
+            if outcome["kind"] == "neterr" and not outcome.get("delivered"):
                 return
+            # (a network error may concern a retransmission while the first copy was delivered and processed: 'delivered')
             box["reply"] = w.serve(path, bytes(msg.payload), outcome)
 
         def deliver():
@@ -71,7 +79,14 @@ class SimContext:
                     w.ctx.probe("coap_reply_to_abandoned_request")
                 return
             if outcome["kind"] == "neterr":
-                fut.set_exception(NetworkError("simulated network error"))
+                # aiocoap reports ICMP errors from the socket error queue per remote: every pending request to it fails with
+                # NetworkError(str(oserror)) whose __cause__ is the OSError
+                err = outcome.get("errno")
+                exc = NetworkError("simulated network error" if not err else os.strerror(err))
+                if err:
+                    exc.__cause__ = OSError(err, os.strerror(err))
+                w.ctx.probe("coap_neterr_" + (errno_name(err) if err else "plain") + ("_delivered" if outcome.get("delivered") else ""))
+                fut.set_exception(exc)
                 return
             if outcome["kind"] == "reply_lost" and path == "":
                 w.ctx.probe("coap_reply_lost_after_processing")
